@@ -21,6 +21,9 @@ REPO_SRCS = [
     "src/MDP/Policies/PolicyWrapper.cpp",
     "src/Utils/Probability.cpp",
     "src/MDP/Policies/EpsilonPolicy.cpp",
+    "src/Factored/Bandit/Policies/RandomPolicy.cpp",
+    "src/Factored/Bandit/Policies/SingleActionPolicy.cpp",
+    "src/Factored/Utils/Core.cpp",
 ]
 AXIOM_ALLOW = []
 TRUSTED_BASE = [
@@ -40,7 +43,7 @@ RULE = ("cases from props/C09.py gen(): Q-vectors on a k/16 grid of any sign wit
         "updates, random doubles); every public setter (setAParam/setBParam, setEpsilon, setTemperature, setDeltaW/L, setScaling, "
         "setLearningRate, setPredictionLength, ESRL setters) interleaved with the updates, out-of-range values included; "
         "Thompson / TopTwo / T3C on recorded experiences (all-negative rewards included); ESRL phase machine and "
-        "SuccessiveRejects schedule against their models; Random at oracle level; non-trivial = ties present or maximiser not at index 0 (greedy), 0<eps<1 "
+        "SuccessiveRejects schedule against their models; Random at oracle level (kind rnd) and, round 6, Bandit/MDP RandomPolicy (brnd/mrnd: table, queries, distribution bounds, replayed draw), Factored::Bandit::RandomPolicy + Factored::MDP::BanditPolicyAdaptor (frnd) and Factored::Bandit::SingleActionPolicy (fsa) against their models with the probabilities of EVERY joint action summed; non-trivial = ties present or maximiser not at index 0 (greedy), 0<eps<1 "
         "(epsilon), at least one update (LRP/WoLF/PGA-APP), T>1e-6 (softmax), all arms explored (Thompson), a phase change "
         "(ESRL/SR); distinct by md5 of the case line")
 THOROUGH_SEEDS = 3
@@ -463,11 +466,40 @@ def gen_rnd(rng):
     return "rnd %d %d %d" % (rng.choice([1, 2, 3, 5, 8]), rng.choice([1, 3, 6]), rng.randrange(1 << 30))
 
 
+def gen_brnd(rng):
+    return "brnd %d %d %d" % (rng.choice([1, 2, 3, 4, 5, 7, 8, 16]), rng.choice([1, 4, 12, 30]), rng.randrange(1 << 30))
+
+
+def gen_mrnd(rng):
+    return "mrnd %d %d %d %d" % (rng.choice([1, 2, 3, 5, 9]), rng.choice([1, 2, 3, 4, 5, 7, 8]), rng.choice([1, 4, 12, 30]), rng.randrange(1 << 30))
+
+
+def _space(rng):
+    while True:
+        A = [rng.choice([1, 2, 2, 3, 4, 5]) for _ in range(rng.choice([1, 2, 2, 3, 3, 4]))]
+        n = 1
+        for x in A: n *= x
+        if n <= 96: return A
+
+
+def gen_frnd(rng):
+    A = _space(rng)
+    S = [rng.choice([1, 2, 3]) for _ in range(rng.choice([1, 2, 3]))]
+    return "frnd %s %s %d %d" % (L(A), L(S), rng.choice([1, 4, 10]), rng.randrange(1 << 30))
+
+
+def gen_fsa(rng):
+    A = _space(rng)
+    nu = rng.choice([0, 1, 3, 6])
+    ups = [[rng.randrange(x) for x in A] for _ in range(nu)]
+    return "fsa %s %d %s" % (L(A), nu, " ".join(L(u) for u in ups))
+
+
 def gen(rng, tier):
     n = {"quick": 900, "thorough": 4500, "search": 1500}[tier]
     out = []
     for _ in range(n):
-        k = rng.choice(["gr", "gr", "epg", "mgr", "lrp", "lrp", "smx", "smx", "smu", "ts", "tsn", "tt", "ttn", "wolf", "wolf", "mpol", "pga", "pga", "pga", "esrl", "sr", "rnd", "t3c", "msm", "msm"])
+        k = rng.choice(["gr", "gr", "epg", "mgr", "lrp", "lrp", "smx", "smx", "smu", "ts", "tsn", "tt", "ttn", "wolf", "wolf", "mpol", "pga", "pga", "pga", "esrl", "sr", "rnd", "brnd", "mrnd", "frnd", "fsa", "t3c", "msm", "msm"])
         if k == "gr": out.append(gen_gr(rng))
         elif k == "epg": out.append(gen_epg(rng))
         elif k == "mgr": out.append(gen_mgr(rng))
@@ -482,6 +514,10 @@ def gen(rng, tier):
         elif k == "esrl": out.append(gen_esrl(rng))
         elif k == "sr": out.append(gen_sr(rng))
         elif k == "rnd": out.append(gen_rnd(rng))
+        elif k == "brnd": out.append(gen_brnd(rng))
+        elif k == "frnd": out.append(gen_frnd(rng))
+        elif k == "fsa": out.append(gen_fsa(rng))
+        elif k == "mrnd": out.append(gen_mrnd(rng))
         elif k == "t3c": out.append(gen_t3c(rng))
         elif k == "msm": out.append(gen_msm(rng))
         else: out.append(gen_thompson(rng, k))
